@@ -715,7 +715,7 @@ def _accessors_trad(o, dists=DISTS, ns=(1.0, -1.0, 2.5)):
 
 def _same(a, b, rtol=STAT_RTOL, atol=1e-12):
     if isinstance(a, tuple) or isinstance(b, tuple):
-        return a == b
+        return isinstance(a, tuple) and isinstance(b, tuple) and a == b
     return close(a, b, rtol, atol)
 
 
@@ -975,7 +975,7 @@ def prepare_c06(ctx, st, which, op):
     try:
         tw, _ = make_twin(st, which, perm=perms, scale=1.0)
         pre["twins"].append(("permute_windows", tw, perms))
-        sc = r.choice([0.5, 2.0, 4.0, 10.0, 0.1])
+        sc = r.choice([0.5, 2.0, 4.0, 0.25, 8.0])      # powers of two: exact, so no tie is created or broken
         if plain_kwargs(op["kwargs"]) and plain_kwargs(st.cur_kwargs):
             tw2, ident = make_twin(st, which, perm=None, scale=sc)
             pre["twins"].append((f"scale_amplitudes({sc})", tw2, ident))
